@@ -8,7 +8,7 @@ from typing import Dict, List, Optional, Set, Tuple
 from ..cfg import CFG
 from ..model import AnchorError, Program, dotted, kw, last_attr, norm, parent, walk_no_nested
 from ..report import Check
-from .common import calls_in, guards_of, local_assignments, returns_of
+from .common import calls_in, guards_of, local_assignments, need_locals, returns_of
 
 ORDER_PRESERVING_CALLS = {"enumerate", "zip", "list", "tuple", "iter"}
 ORDER_BREAKING_CALLS = {"set", "frozenset", "sorted", "reversed", "shuffle"}
@@ -69,6 +69,7 @@ def r08_bc(prog: Program, chk: Check) -> None:
     chk.rule("R08.b", "first clean match wins: the arm reached by a result that is no error, needs no decomposition and used no Any returns; error arms continue, Any/union arms fall through", floor=4)
     chk.rule("R08.c", "diagnosed when nothing matched: every path that leaves resolution without a clean/Any match reports an error and returns Any[error]", floor=3)
     fn = prog.func("signature", "OverloadedSignature.check_call")
+    need_locals(fn, "ret", "any_rets", "actual_args", "bound_args")
     site = prog.site("signature", fn)
     loops = [lp for lp in walk_no_nested(fn) if isinstance(lp, ast.For) and any("check_call_preprocessed" in norm(c) for c in calls_in(lp))]
     if len(loops) != 1:
@@ -148,6 +149,7 @@ def r08_d(prog: Program, chk: Check) -> None:
         ok = len(r) == 1 and isinstance(r[0].value, ast.Call) and norm(r[0].value.func) == "qcore.override" and len(r[0].value.args) == 3 and norm(r[0].value.args[1]) == repr(attr) and norm(r[0].value.args[2]) == val
         chk.ob("R08.d", f"checker::Checker.{mname}::scoped-override", ok, prog.site("checker", f2), f"{mname} must be qcore.override(self, {attr!r}, {val}) so the previous state is restored on exit")
     ur = prog.func("signature", "OverloadedSignature._unite_rets")
+    need_locals(ur, "any_rets", "union_and_any_rets", "union_rets", "clean_ret", "deduped")
     first = ur.body[0]
     ok = False
     if isinstance(first, ast.If) and norm(first.test) == "any_rets or union_and_any_rets":
